@@ -3,7 +3,28 @@
 //! read-backs.  Emits a few `tree echo` lines so the transcript is not empty.
 use crate::common::{Rng, Sink};
 use crate::tree::*;
-use xot::Xot;
+use xot::{Node, Xot};
+
+/// `to_string` / `parse` of the crate under `catch_unwind`: a panic on a tree built through the public
+/// API is a failure of the property with the tree as replay, not of the harness (seed C01j).
+fn ser_guard(sink: &mut Sink, xot: &Xot, n: Node, wire: &str) -> Option<Result<String, xot::Error>> {
+    match crate::common::guarded(|| xot.to_string(n)) {
+        Some(r) => Some(r),
+        None => {
+            sink.fail("C01", "C01:to_string-panics", &format!("to_string panicked for {}", wire), &[format!("tree {}", wire)]);
+            None
+        }
+    }
+}
+fn parse_guard(sink: &mut Sink, xot: &mut Xot, s: &str, fragment: bool, wire: &str) -> Option<Result<Node, xot::ParseError>> {
+    match crate::common::guarded(|| if fragment { xot.parse_fragment(s) } else { xot.parse(s) }) {
+        Some(r) => Some(r),
+        None => {
+            sink.fail("C01", "C01:reparse-panics", &format!("parse panicked on the serialisation {:?} of {}", s, wire), &[format!("tree {}", wire), format!("serialised {:?}", s)]);
+            None
+        }
+    }
+}
 
 /// Does some element use the default-namespace binding of an ancestor while being in no
 /// namespace itself? (recorded finding: serialised unprefixed, joins the default namespace)
@@ -106,14 +127,14 @@ fn repair_case(sink: &mut Sink, xot: &mut Xot, vocab: &mut Vocab, root: xot::Nod
         sink.fail("C10", "C10:repair-lost-or-altered-a-declaration", &format!("after repair {}", repaired.wire()), &replay);
         return;
     }
-    let s = match xot.to_string(root) {
+    let s = match match ser_guard(sink, xot, root, &original.wire()) { Some(r) => r, None => return } {
         Ok(s) => s,
         Err(e) => {
             sink.fail("C10", "C10:serialisation-fails-after-repair", &format!("{:?} ; after repair {}", e, repaired.wire()), &replay);
             return;
         }
     };
-    let reparsed = if fragment { xot.parse_fragment(&s) } else { xot.parse(&s) };
+    let reparsed = match parse_guard(sink, xot, &s, fragment, &original.wire()) { Some(r) => r, None => return };
     match reparsed {
         Err(e) => sink.fail("C10", "C10:repaired-output-rejected", &format!("{:?} for {:?}", e, s), &replay),
         Ok(r2) => {
@@ -235,13 +256,13 @@ pub fn one_case(rng: &mut Rng, sink: &mut Sink, emit: bool) {
     // round-trip domain, and the canonical token rendering is what to_string returns
     sink.emit(vocab.wire(), "ok".to_string());
     sink.emit(format!("representable {} {}", if fragment { 1 } else { 0 }, original.wire()), "true".to_string());
-    let rendered = match xot.to_string(root) {
+    let rendered = match match ser_guard(sink, &xot, root, &original.wire()) { Some(r) => r, None => return } {
         Ok(s) => format!("ok {}", crate::common::enc(&s)),
         Err(e) => crate::suite_ser::err_str(&e),
     };
     sink.emit(format!("sertokens {}", original.wire()), rendered);
     inner_case(rng, sink, &mut xot, &mut vocab, root, &original);
-    let s = match xot.to_string(root) {
+    let s = match match ser_guard(sink, &xot, root, &original.wire()) { Some(r) => r, None => return } {
         Ok(s) => s,
         Err(xot::Error::MissingPrefix(_)) => {
             sink.stat("rt.missing-prefix");
@@ -257,7 +278,7 @@ pub fn one_case(rng: &mut Rng, sink: &mut Sink, emit: bool) {
     let names: Vec<usize> = vocab.names.iter().map(|n| n.1).collect();
     let ns_of = move |n: usize| names[n];
     let known_shape = no_ns_under_default(&original, &ns_of, 0);
-    let reparsed = if fragment { xot.parse_fragment(&s) } else { xot.parse(&s) };
+    let reparsed = match parse_guard(sink, &mut xot, &s, fragment, &original.wire()) { Some(r) => r, None => return };
     let replay = vec![format!("tree {}", original.wire()), format!("serialised {:?}", s)];
     match reparsed {
         Err(e) => {
@@ -652,14 +673,14 @@ fn mutated_case(rng: &mut Rng, sink: &mut Sink) {
         }
     };
     let original = read_tree(&xot, &mut vocab, root);
-    let s = match xot.to_string(root) {
+    let s = match match ser_guard(sink, &xot, root, &original.wire()) { Some(r) => r, None => return } {
         Ok(s) => s,
         Err(_) => {
             sink.stat(&format!("rt.mutated.{}.serialise-refused", kind));
             return;
         }
     };
-    let reparsed = if fragment { xot.parse_fragment(&s) } else { xot.parse(&s) };
+    let reparsed = match parse_guard(sink, &mut xot, &s, fragment, &original.wire()) { Some(r) => r, None => return };
     let same = match reparsed {
         Err(_) => false,
         Ok(r2) => read_tree(&xot, &mut vocab, r2) == original,
